@@ -291,6 +291,27 @@ def bounded(pr):
                 bad = ['%s: %s' % (type(e).__name__, e)]
             if bad and len(viol) < 3:
                 viol.append({'what': '%s pose %r + %r: %s' % (name, P_, t, bad[:2]), 'replay': None})
+    # hydrogens supplied with the structure (keep-protons), NOT at the program's ideal positions: every pKa and determinant unchanged
+    for name in names[:1]:
+        hl = native.with_own_hydrogens(native.pdb_lines(name), perturb=0.15)
+        ref_k = native.record(native.run_text(hl, ['--keep-protons']), with_label=True)
+        for P_, t in poses[:4] + [(Ps[0], (0.7, 0.0, 0.0)), (Ps[0], (0.0, 1.3, -0.6))]:
+            ev += 1
+            classes.add(('keep-protons', P_))
+            lines = []
+            for l in hl:
+                if l[:6] in ('ATOM  ', 'HETATM'):
+                    w = C17.apply(P_, [float(l[30:38]), float(l[38:46]), float(l[46:54])])
+                    l = l[:30] + '%8.3f%8.3f%8.3f' % (w[0] + t[0], w[1] + t[1], w[2] + t[2]) + l[54:]
+                lines.append(l)
+            try:
+                got = native.record(native.run_text(lines, ['--keep-protons']))
+                bad = native.diff_records(ref_k, got, tol=1e-6, keys=('pka', 'evol', 'buried', 'nvol', 'type'), dets=True)
+            except Exception as e:    # noqa
+                bad = ['%s: %s' % (type(e).__name__, e)]
+            if bad and len(viol) < 3:
+                viol.append({'what': '%s with supplied (non-ideal) hydrogens, --keep-protons, pose %r + %r: %s' % (name, P_, t, bad[:2]),
+                             'replay': None})
     pr.bounded.append({'name': 'C04-monitor: rotated/translated copies of amino-acid structures', 'evaluations': ev,
                        'distinct_nontrivial': len(classes), 'bound': '%d structures x %d poses' % (len(names), len(poses)),
                        'rule': 'bonds, groups, desolvation, buried fractions exact (1e-9); pKa within 0.02 (hydrogen coordinates are rounded '
